@@ -463,7 +463,7 @@ class World:
 # ------------------------------------------------------------------ one session
 
 
-def run_session(world, spec, record_events=False):
+def run_session(world, spec, timeout=None):
     """Run one session against the real pair. Returns an observation dict."""
     from pkgcore.ebuild import ebd_ipc, processor
     from verif.engines import faults
@@ -571,7 +571,7 @@ def run_session(world, spec, record_events=False):
         ks, en = spec["fault"]
         plan = ("errors", set(ks), en) if len(ks) > 1 else ("error", ks[0], en)
     old = signal.signal(signal.SIGALRM, _alarm)
-    signal.setitimer(signal.ITIMER_REAL, TIMEOUT)
+    signal.setitimer(signal.ITIMER_REAL, timeout or TIMEOUT, 5)
     try:
         try:
             status, value = inj.run(serve, plan)
@@ -793,6 +793,9 @@ def judge(spec, obs):
 
 def check(world, spec):
     obs = run_session(world, spec)
+    if obs["outcome"] == "timeout":
+        # a starved machine can exceed the time limit: only a hang that shows again with four times the allowance counts
+        obs = run_session(world, spec, timeout=4 * TIMEOUT)
     obs["world_image"] = world.image
     viol, cls = judge(spec, obs)
     return obs, viol, cls
